@@ -20,11 +20,63 @@ def big_stream(rng, npk, errors=False, nlinks=None):
     return s
 
 
+def big_stop_case(exe, wd, seed, case, tier, kind):
+    """scale: the stop condition arises early in a very long piped input (640 000 packets, 41 MB). Being cut short is observable at the producer: the tool must
+    go away long before it has consumed the whole input (its queues hold at most some 10^4 packets), whatever the cap value / the amount of output buffered."""
+    import frame
+    rng = rng_for(seed, case)
+    out = dict(case=case, viol=None, key=None, sample=None, inconclusive=None)
+    block = frame.generate(rng, 10000, payload="none", sane_headers=True)
+    for q in block:
+        q.f["system_id"] = 32
+        q.f["stop_bit"] = 2            # an [E10] on every RDH
+    data = frame.serialize(block) * 64
+    N = rng.choice([3, 9])
+    env = dict(os.environ, TMPDIR=wd)
+    if kind == "cap_big":
+        cap = rng.choice([65, 100, 127, 1000, 1025, 4097])
+        argv = [exe] + rng.choice([["check", "sanity"], ["check", "all"]]) + ["-e", str(cap), "-E", str(N), "-m"]
+        kw = dict(stdin_data=data, chunk=65536)
+        desc = "cap_big: 640000 packets with an error each from a pipe, -e %d" % cap
+    else:
+        n = rng.choice([0, 4096, 65536, 300000])
+        argv = [exe, "view", "rdh"] + rng.choice([[], ["-d"]])
+        kw = dict(stdin_data=data, chunk=65536, close_stdout_after=n)
+        desc = "close_big: view rdh of 640000 packets from a pipe, stdout closed after %d bytes" % n
+    out["sample"] = desc
+    nchunks = (len(data) + 65535) // 65536
+    o = procmon.run(argv, env=env, cwd=wd, cpu_limit=120.0, **kw)
+
+    def bad(what):
+        d = save_replay("C17", "case%d" % case, {"stderr.txt": o.stderr[-20000:]}, dict(seed=seed, case=case, argv=argv, kind=kind, what=what, note="input: 64 x a 10000-packet RDH-only block, see big_stop_case"))
+        out["viol"] = ("stop:%s:%s" % (kind, what.split(":")[0]), "%s: %s" % (desc, what), d)
+        return out
+    if o.inconclusive:
+        out["inconclusive"] = "%s: %s" % (desc, o.inconclusive)
+        return out
+    if o.hung:
+        return bad("no progress: the process is alive, all threads sleep and no CPU time is consumed (deadlock)")
+    if o.cpu_exceeded:
+        return bad("no termination: %.0f s of CPU time consumed" % o.cpu_exceeded)
+    if o.sig is not None:
+        return bad("killed by signal %d" % o.sig)
+    if o.panicked():
+        return bad("panic: %s" % [l for l in o.stderr.split("\n") if "panicked" in l or "embarrassing" in l][:1])
+    if o.rc not in (0, 1, N):
+        return bad("exit status %s" % o.rc)
+    if o.fed >= nchunks:
+        return bad("not cut short: the whole input (%d chunks of 64 KiB) was consumed although the stop condition arose within the first few thousand packets" % nchunks)
+    out["key"] = (kind, o.fed * 100 // nchunks // 10)
+    return out
+
+
 def one_case(args):
     exe, wd, seed, case, tier = args
     rng = rng_for(seed, case)
     out = dict(case=case, viol=None, key=None, sample=None, inconclusive=None)
     kind = ["signal_pipe", "signal_file", "close_view", "close_data", "close_stats", "cap", "fatal", "fatal_stall", "signal_writer"][case % 9]
+    if case % 45 in (5, 20):
+        return big_stop_case(exe, wd, seed, case, tier, "cap_big" if case % 45 == 5 else "close_big")
     N = rng.choice([3, 9])
     env = dict(os.environ)
     env["TMPDIR"] = wd
@@ -193,7 +245,7 @@ def run(res):
             res.sample(o["sample"], cap=9)
     res.rule = ("stop conditions x schedules: SIGINT/SIGTERM after chunk k of a piped input / after n bytes of output / during filtered writing; stdout closed after n bytes "
                 "(n in {0, 1, 4 KiB, 64 KiB +- 1, random}) for views, filtered data and -S stdout; error cap -e N on inputs with errors on many links; fatal framing error at packet i "
-                "(with stalled validators / collector so that queues are full); each under a seeded H1 schedule; non-trivial = distinct (kind, signal sent, schedule, size)")
+                "(with stalled validators / collector so that queues are full); two scale cases per 45 (640 000-packet pipe: cap values 65..4097 and an early closed stdout must cut the run short); each under a seeded H1 schedule; non-trivial = distinct (kind, signal sent, schedule, size)")
     res.min_nontrivial = 30 if res.tier == "quick" else 60
     res.assumptions = ["a single stop signal (a second one is documented as ungraceful)", "the upstream of a pipe eventually delivers or closes (it may go quiet for up to 1.6 s first)",
                        "a signal is delivered once the tool has installed its handler (/proc/<pid>/status SigCgt; bounded wait of 5 s, then it is sent anyway)",
